@@ -66,7 +66,7 @@ CHECKS = {
    text="Per emitted package (generated by the real CLI for specifications whose automata contain quotes, backslashes, control and non-ASCII characters, keyword prefix chains, terminals owning no state, plus random ones): the Go front end (go vet, standard library only) type-checks the six files, and advanceDFA/evalDFA are READ BACK from the emitted lexer.go by the translator and compared, by the kernel, with the automaton and terminal map dumped from Spec.DFA(). Universal Coq theorem: when the comparison evaluates to true the emitted transition function equals the automaton's for EVERY state and EVERY code point and the emitted table equals the terminal map for EVERY state (nothing elsewhere).",
    note=TB + "Validity of Go source is decided by the Go front end (trusted); the renderer (templates, formatRunes) is not modelled: its output is validated per package. D8 (no emitted package ever compiled) was found by this check and fixed.",
    tech="translation validation: emitted source read back by the translator, extensional comparison certified in Coq (all states x all code points); Go front end for validity"),
- "C19": dict(cat="refinement",
+ "C19": dict(cat="proof",
    text="Universal Coq theorems (Props/C19.v) about the emitted loop as a function of an ARBITRARY automaton, terminal table and text: the token stream it returns is the unique stream the maximal-munch relation allows (longest run from each start, owner of the state reached, lexical error with the exact lexeme and position when not accepting, WS/EOL/COMMENT skipped, unmatched whitespace discarded, end-of-input after the last token), and the two-half reader delivers exactly the file for every half size and every NUL-free file. Tie: five specifications are generated by the real CLI, compiled with a driver program and RUN on fragments, pairs, near-misses, multi-byte characters, random compositions, long lexemes, exact multiples of the half size and paddings across both 4096-byte boundaries; every output is compared with the Coq model evaluated on the dumped automaton and with an independent maximal-munch oracle.",
    note=TB + "The emitted reader's Retract/pending-lexeme bookkeeping is validated by the padding sweep, not proved; multi-byte decoding is exercised, not modelled. D21-D24 and D26 (five defects of the emitted lexer/reader) were found by this check and fixed.",
    tech="refinement: Gallina model of the emitted scanning loop proved against the maximal-munch specification; correspondence by compiling and running the emitted package"),
